@@ -40,6 +40,9 @@ pub enum ROp {
     /// spawn a fresh instance, stop it, wait for its end, and `register()` it all the same:
     /// whether register succeeds depends on what is registered, not on what is being registered
     RegisterNewStopped,
+    /// a lookup that is given up after one tick (a timeout or a `select!` around
+    /// `from_registry()`): whatever it has published by then stays published
+    FromRegistryGiveUp,
 }
 
 pub const ALPHABET: [ROp; 10] = [
@@ -68,6 +71,20 @@ pub async fn reg_op<const K: u8>(held: &mut Option<Addr<Probe<K>>>, op: ROp) -> 
             let id = ident(&a).await;
             *held = Some(a);
             Res::Reg { present: true, ident: id }
+        }
+        ROp::FromRegistryGiveUp => {
+            let lookup = Box::pin(Probe::<K>::from_registry());
+            match futures::future::select(lookup, Box::pin(world::sleep(1))).await {
+                futures::future::Either::Left((a, _)) => {
+                    let id = ident(&a).await;
+                    *held = Some(a);
+                    Res::Reg { present: true, ident: id }
+                }
+                futures::future::Either::Right((_, lookup)) => {
+                    drop(lookup);
+                    Res::Err(ErrKind::Timeout)
+                }
+            }
         }
         ROp::Setup => match Probe::<K>::setup().await {
             Ok(()) => Res::Ok,
@@ -220,6 +237,9 @@ struct S {
     /// the services' stopped() hook gives way twice: there is a while between "asked to stop" and
     /// "gone", during which the instance is what it was - registered and not yet terminated
     slow_stop: bool,
+    /// the services' started() hook takes two ticks: a lookup that spawns one is kept waiting
+    /// (on the build with debug assertions, which pings the fresh instance before it returns)
+    slow_start: bool,
 }
 
 impl Scene for S {
@@ -231,6 +251,11 @@ impl Scene for S {
         if self.slow_stop {
             for x in r.iter_mut() {
                 x.stopped_yields = 2;
+            }
+        }
+        if self.slow_start {
+            for x in r.iter_mut() {
+                x.started_sleep = 2;
             }
         }
         r
@@ -409,7 +434,18 @@ fn apply(m: &Model, e: &HEvent, hold_probe: &dyn Fn(u16, usize) -> bool) -> Opti
                 None => hold_probe(pred, e.hi),
             };
             match op {
-                ROp::FromRegistry | ROp::Setup => {
+                ROp::FromRegistryGiveUp if matches!(res, Res::Err(ErrKind::Timeout)) => {
+                    // given up half-way: if it got as far as spawning an instance, that instance
+                    // is the registered one from then on (nobody unregistered it)
+                    if let Some(s) = *spawned {
+                        if matches!(n.entry[k], Some(x) if n.alive(x)) {
+                            return None;
+                        }
+                        n.entry[k] = Some(s);
+                    }
+                    Some(n)
+                }
+                ROp::FromRegistry | ROp::Setup | ROp::FromRegistryGiveUp => {
                     let pred = match n.entry[k] {
                         Some(x) if n.alive(x) => {
                             if spawned.is_some() {
@@ -425,7 +461,7 @@ fn apply(m: &Model, e: &HEvent, hold_probe: &dyn Fn(u16, usize) -> bool) -> Opti
                     };
                     match (op, res) {
                         (ROp::Setup, Res::Ok) => Some(n),
-                        (ROp::FromRegistry, Res::Reg { present: true, ident }) if ident_ok(pred, *ident) => Some(n),
+                        (ROp::FromRegistry | ROp::FromRegistryGiveUp, Res::Reg { present: true, ident }) if ident_ok(pred, *ident) => Some(n),
                         _ => None,
                     }
                 }
@@ -672,12 +708,13 @@ fn spawns(op: ROp) -> bool {
 
 thread_local! {
     static SLOW_STOP: std::cell::Cell<bool> = const { std::cell::Cell::new(false) };
+    static SLOW_START: std::cell::Cell<bool> = const { std::cell::Cell::new(false) };
 }
 
 fn push_case(v: &mut Vec<Case>, programs: Vec<Vec<(u8, ROp)>>, preregistered: bool, bound: Option<u32>) {
     let desc = format!(
         "registry{} pre={} programs={}",
-        if SLOW_STOP.with(|x| x.get()) { " [stopped() takes a while]" } else { "" },
+        if SLOW_STOP.with(|x| x.get()) { " [stopped() takes a while]" } else if SLOW_START.with(|x| x.get()) { " [started() takes a while]" } else { "" },
         preregistered,
         programs
             .iter()
@@ -693,7 +730,7 @@ fn push_case(v: &mut Vec<Case>, programs: Vec<Vec<(u8, ROp)>>, preregistered: bo
         desc,
         exec: ExecCfg { yield_holding_lock: holding, ..ExecCfg::default() },
         bound,
-        scene: Box::new(S { programs, preregistered, first_start_fails: false, slow_stop: SLOW_STOP.with(|x| x.get()) }),
+        scene: Box::new(S { programs, preregistered, first_start_fails: false, slow_stop: SLOW_STOP.with(|x| x.get()), slow_start: SLOW_START.with(|x| x.get()) }),
     });
 }
 
@@ -778,7 +815,7 @@ fn cases(tier: Tier) -> Vec<Case> {
         for p in progs {
             let desc = format!("registry [first start of the type fails] programs={}", p.iter().map(|c| c.iter().map(|(k, o)| format!("{o:?}{k}")).collect::<Vec<_>>().join(",")).collect::<Vec<_>>().join(" | "));
             let bound = if p.len() >= 3 { Some(if tier == Tier::Quick { 4 } else { 6 }) } else { None };
-            v.push(Case { desc, exec: ExecCfg { yield_holding_lock: true, ..ExecCfg::default() }, bound, scene: Box::new(S { programs: p, preregistered: false, first_start_fails: true, slow_stop: false }) });
+            v.push(Case { desc, exec: ExecCfg { yield_holding_lock: true, ..ExecCfg::default() }, bound, scene: Box::new(S { programs: p, preregistered: false, first_start_fails: true, slow_stop: false, slow_start: false }) });
         }
     }
     // the builder's register() terminal: like register(), it succeeds exactly when no live
@@ -831,6 +868,27 @@ fn cases(tier: Tier) -> Vec<Case> {
         }
     }
     SLOW_STOP.with(|x| x.set(false));
+    // lookups that are given up half-way (a timeout around from_registry()), next to lookups that
+    // are not; with a started() hook that takes a while the build with debug assertions keeps a
+    // spawning lookup waiting for its ping - long enough to be given up
+    for slow in [false, true] {
+        SLOW_START.with(|x| x.set(slow));
+        let f = (1u8, ROp::FromRegistry);
+        let g = (1u8, ROp::FromRegistryGiveUp);
+        let progs: Vec<Vec<Vec<(u8, ROp)>>> = vec![
+            vec![vec![g, f]],
+            vec![vec![g, (1, ROp::TryFromRegistry), (1, ROp::AlreadyRunning)]],
+            vec![vec![g, f], vec![f]],
+            vec![vec![g], vec![f, f]],
+            vec![vec![g, (1, ROp::AlreadyRunning)], vec![f, (1, ROp::TryFromRegistry)]],
+            vec![vec![g, f], vec![g, f]],
+            vec![vec![g, (1, ROp::Setup)], vec![(1, ROp::TryFromRegistry), f]],
+        ];
+        for p in progs {
+            push_case(&mut v, p, false, None);
+        }
+    }
+    SLOW_START.with(|x| x.set(false));
     // registering an instance that has already ended: what counts is what the registry holds
     {
         let f = (1u8, ROp::FromRegistry);
